@@ -79,27 +79,34 @@ def handleHammer (args obs : List String) : Verdict :=
     | _, _ => bad "args"
   | _ => bad "arity"
 
-/-- `life <N> | script:outs:exit script:outs:exit …` (consecutive lifetimes of one call site) -/
+/-- `life <N> | script:outs:exit script:outs:exit …` (consecutive lifetimes of one call site).
+    A script is one call string per installation of the site within the lifetime, joined by `+`
+    (`mm+mx`: install, two calls, install again on another function, two calls); a trailing `!`
+    marks a lifetime left by a panic raised in its body.  `outs` has the same shape. -/
 def handleLife (args obs : List String) : Verdict :=
   match args with
   | [nS] =>
     match nS.toNat? with
     | some n =>
       let parts := obs.map (fun p => p.splitOn ":")
-      -- a script ending in `!` is a lifetime left by a panic raised in its body
-      let hist : List (Nat × List Bool × Bool) := parts.map (fun p =>
+      let hist : List (Nat × List (List Bool) × Bool) := parts.map (fun p =>
         let sc := p.getD 0 "-"
-        (n, scriptOf (sc.replace "!" ""), sc.endsWith "!"))
+        (n, ((sc.replace "!" "").splitOn "+").map scriptOf, sc.endsWith "!"))
       let cp := Generated.Layout.verifierChecksPanicking
       let model := lifetimes Generated.Layout.counterResetOnInstall cp 0 hist
-      let render := fun (r : List CallOut × ExitOut) => outsStr r.1 ++ ":" ++ (exitStr r.2).replace ":" ","
+      let render := fun (r : List (List CallOut) × ExitOut) =>
+        String.intercalate "+" (r.1.map outsStr) ++ ":" ++ (exitStr r.2).replace ":" ","
       let implStr := parts.map (fun p => p.getD 1 "?" ++ ":" ++ p.getD 2 "?")
       let agree := model.map render == implStr
-      -- property: every lifetime has the verdict it would have alone
-      let alone := hist.map (fun l => let r := runCalls l.1 0 l.2.1; render (r.1, verifierDrop cp l.1 r.2 l.2.2))
+      -- property: every installation counts from zero, every lifetime has the verdict it would have alone
+      let alone := hist.map (fun l =>
+        let r := runInstalls true l.1 0 l.2.1
+        render (r.1, exitVerdict cp l.1 l.2.1 r.2 l.2.2))
       let pOk := alone == implStr
       let firstBad := (List.zip (List.range alone.length) (List.zip alone implStr)).find? (fun x => x.2.1 != x.2.2)
-      { agree := agree, propOk := pOk, branch := "life" ++ (if hist.length > 4 then "+many" else "") ++ (if hist.any (·.2.2) then "+unwound" else ""),
+      { agree := agree, propOk := pOk,
+        branch := "life" ++ (if hist.length > 4 then "+many" else "") ++ (if hist.any (·.2.2) then "+unwound" else "") ++
+                  (if hist.any (·.2.1.length > 1) then "+reinstall" else ""),
         detail := (if agree then "" else "model=" ++ String.intercalate " " (model.map render)) ++
                   (match firstBad with | some (i, _) => " key=c07.lifetime-" ++ (if i == 0 then "first" else "later") | none => "") }
     | none => bad "args"
